@@ -23,6 +23,8 @@ import (
 //	      UDist{N,K,T} (kind 1), KDE{Sample: Xs, Bandwidth: B} (kind 2) — relational against their own CDF
 //	op 5  supporting evidence: Kolmogorov-Smirnov distance of N draws of stats.Rand(c07PW) from
 //	      rand.New(rand.NewSource(Seeds[0])) to the distribution's own CDF
+//	op 8  the same N seeded draws, sorted, handed over: the Kolmogorov-Smirnov distance to the exact cdf is
+//	      computed by the Coq comparator
 //	op 7  stats.Rand of a relational-kind distribution (harness/c07_dists.go) with a scripted rand.Source
 //
 // ops 0 and 4 with Step != 0: the SAME piecewise cdf (pure jumps on the lattice X0 + i*Step) behind a
@@ -343,6 +345,29 @@ func c07Run(raw []byte) (*Line, error) {
 		if err := c07RunRandRel(l, &c); err != nil {
 			return nil, err
 		}
+	case 8:
+		dist, d, err := c07MakeDist(&c)
+		if err != nil {
+			return nil, err
+		}
+		if c.N < 1 || c.N > 1<<17 || len(c.Seeds) != 1 {
+			return nil, fmt.Errorf("bad draw count / seed")
+		}
+		l.c07PW(d)
+		xs := make([]float64, c.N)
+		pan, _ := catch(func() {
+			r := rand.New(rand.NewSource(c.Seeds[0]))
+			gen := stats.Rand(dist)
+			for i := range xs {
+				xs[i] = gen(r)
+			}
+		})
+		st := 0
+		if pan {
+			st = 2
+		}
+		sort.Float64s(xs) // NaNs first: the line then does not parse as a list of finite numbers = mismatch
+		l.I(st).Fs(xs)
 	case 5:
 		d, err := c07MakePW(&c)
 		if err != nil {
@@ -720,7 +745,7 @@ func c07Gen(tier string, rng *rand.Rand, emit func(interface{})) {
 	}
 	c07GenExtra(tier, rng, emit)
 	// (a) random piecewise distributions
-	for i := 0; i < 1800*mul; i++ {
+	for i := 0; i < 1500*mul; i++ {
 		knots, step := c07GenPW(rng)
 		bl, bh := c07GenBounds(rng, knots, step)
 		emit(c07Case{Op: 0, Knots: knots, Bl: F64(bl), Bh: F64(bh), Ys: c07GenYs(rng, knots)})
@@ -868,6 +893,22 @@ func c07Gen(tier string, rng *rand.Rand, emit func(interface{})) {
 		knots, step := c07GenPW(rng)
 		bl, bh := c07GenBounds(rng, knots, step)
 		emit(c07Case{Op: 5, Knots: knots, Bl: F64(bl), Bh: F64(bh), N: draws, Seeds: []int64{rng.Int63()}})
+	}
+	// the same with the distance computed by the comparator (fewer draws: they travel in the case line)
+	nks8, draws8 := 8, 4096
+	if tier == "thorough" {
+		nks8, draws8 = 30, 16384
+	}
+	for i := 0; i < nks8; i++ {
+		if i%4 == 3 {
+			knots, step, cutIdx := c07GenDisc(rng)
+			bl, bh := c07DiscBounds(rng, knots, step, cutIdx)
+			emit(c07Case{Op: 8, Knots: knots, Step: F64(step), Bl: F64(bl), Bh: F64(bh), N: draws8, Seeds: []int64{rng.Int63()}})
+			continue
+		}
+		knots, step := c07GenPW(rng)
+		bl, bh := c07GenBounds(rng, knots, step)
+		emit(c07Case{Op: 8, Knots: knots, Bl: F64(bl), Bh: F64(bh), N: draws8, Seeds: []int64{rng.Int63()}})
 	}
 }
 
